@@ -358,3 +358,31 @@ PROPS["C34"] = {
               "thorough": {"evaluations": 150000, "distinct": 100000}},
     "assumptions": ["the name of the root element written by to_writer is not judged (the property is about the value round trip)"],
 }
+
+PROPS["C24"] = {
+    "level": "exploration",
+    "plan": zb_plan(("release", "asan")),
+    "rule": ("EVERY history of length <= 2 (3 thorough) over 30 operations (at/remove x 5 paths {/, /a, /a/b, /a/b/c, /d} x 3 interface "
+             "types) with the lookup view compared with the object-tree model after every step and the call-over-the-wire and "
+             "introspection-walk views after the last; random histories of 30..70 (200 thorough) operations with all three views every "
+             "5 steps; duplicate registration refused (first instance stays, observed through a per-instance tag), removing an absent "
+             "interface fails, no panic; distinct = distinct histories"),
+    "gates": {"quick": {"evaluations": 1200, "distinct": 1200, "wire_view_checks": 3000},
+              "thorough": {"evaluations": 40000, "distinct": 40000}},
+    "exhaustive_note": "all histories up to classes.exhaustive_max_len over the 30 operations (classes.exhaustive_histories_total)",
+    "assumptions": ["empty intermediate nodes and the boolean 'object destroyed' result of remove are not judged; background tasks are settled after each operation (lazy start is C30's subject)"],
+}
+
+PROPS["C30"] = {
+    "level": "exploration",
+    "plan": zb_plan(("release",)),
+    "rule": ("12 handler scenarios (method / &mut method / property getter / setter reached directly and through Properties.Get/Set/GetAll, "
+             "each calling object_server.at / remove / interface or emitting a signal; bursts of them), registration under an "
+             "ObjectManager of an interface whose getter uses the object server, and calls issued 0..3 scheduler steps after an "
+             "on-demand ObjectServer::at() returned with 0..2 unrelated inbound messages already on the transport, under 4-5 scheduler "
+             "biases; at quiescence every call must have exactly one reply and the server must still answer a follow-up call; distinct "
+             "= distinct (scenario, schedule)"),
+    "gates": {"quick": {"evaluations": 2500, "distinct": 200, "calls_checked": 2500},
+              "thorough": {"evaluations": 120000, "distinct": 2000}},
+    "assumptions": ["hang verdicts are taken at quiescence of the deterministic scheduler (no wall clock)"],
+}
